@@ -6,7 +6,7 @@ PROP = 'C03'
 
 
 def targets(tier='quick'):
-    return wire.targets_c03(PROP) + wire.targets_pt(PROP) + wire.targets_file(PROP)
+    return wire.targets_c03(PROP) + wire.targets_pt(PROP) + wire.targets_file(PROP) + [wire.OperatorsTarget(PROP), wire.LiouvillianTarget(PROP)]
 
 
 META = {'level': 'proof', 'explanation': '', 'trusted_base': [], 'clauses': []}
